@@ -7,7 +7,7 @@ from ..runner import crash_violation
 PID = "C08"
 LEVEL = "exploration"
 RULE = ("include trees from a grammar: force-field part {inline, one include, nested include through a sub-directory with a "
-        "../-relative include, type file included twice} x #define placement {before, after, never} x molecule A {inline, "
+        "../-relative include, type file included twice} x #define placement {before, after, never} x {bare flag, macro with a value} x molecule A {inline, "
         "include, include under ifdef/ifndef/ifdef-else/ifndef-else with an alternative definition in the other branch} x "
         "molecule B included from a nested directory x #error placement {none, ifdef, ifndef, else-branches, unconditional} at "
         "{top before molecules, top after an inline moleculetype, inside an included file} x a missing file behind an inactive "
@@ -52,6 +52,10 @@ def cases(tier):
             for dmode in (["none", "ifdef", "ifndef"] if amode == "inline" and ek in ("none", "ifdef") else ["none"]):
                 yield dict(ff=ff, define=dfn, amode=amode, err=ek, errpos=ep, dmode=dmode, tier=tier, idx=i)
                 i += 1
+                if dfn != "never" and (ek != "none" or amode not in ("inline", "include") or dmode != "none"):
+                    # the macro the conditions test is defined with a value (#define M 42) instead of as a bare flag
+                    yield dict(ff=ff, define=dfn, amode=amode, err=ek, errpos=ep, dmode=dmode, tier=tier, idx=i, mval=True)
+                    i += 1
 
 
 def mol_lists(tier):
@@ -90,8 +94,9 @@ def build_tree(cfg, mols, noise, missing_guard):
             files[content_path] = content
         if active and content is not None:
             flat.append(content)
+    mdef = "#define M 42\n" if cfg.get("mval") else "#define M\n"
     if cfg["define"] == "before":
-        emit("#define M\n#define KB 0.35 1250\n")
+        emit(mdef + "#define KB 0.35 1250\n")
         exp["defines"] |= {"M", "KB"}
     # ---- force field part
     if cfg["ff"] == "inline":
@@ -180,7 +185,7 @@ def build_tree(cfg, mols, noise, missing_guard):
     exp["blocks"]["B"] = 1
     exp["blocks"]["C"] = 1
     if cfg["define"] == "after":
-        emit("#define M\n#define KB 0.35 1250\n")
+        emit(mdef + "#define KB 0.35 1250\n")
         exp["defines"] |= {"M", "KB"}
     # ---- system
     use = [(n, c) for n, c in mols if n in exp["blocks"]]
@@ -241,7 +246,7 @@ def check_tree(cfg, mols, noise, missing_guard):
 
     def bad(assertion, msg, t=()):
         viols.append(dict(assertion=assertion, tags=sorted(set(tags) | set(t)),
-                          message=msg + f" | cfg={ {k: cfg[k] for k in ('ff', 'define', 'amode', 'err', 'errpos')} } mols={mols} noise={noise} missing_guard={missing_guard}",
+                          message=msg + f" | cfg={ {k: cfg.get(k) for k in ('ff', 'define', 'amode', 'err', 'errpos', 'mval')} } mols={mols} noise={noise} missing_guard={missing_guard}",
                           case=case1, detail={}))
     with H.tempdir() as d:
         for rel, text in files.items():
@@ -289,7 +294,8 @@ def check_tree(cfg, mols, noise, missing_guard):
         bad("defaults-read", f"{dt['defaults']}")
     if set(dt["atypes"]) != exp["atypes"]:
         bad("atomtypes-read", f"{sorted(dt['atypes'])}")
-    if set(dt["defines"]) != exp["defines"] or (exp["defines"] and dt["defines"].get("KB") != ["0.35", "1250"]):
+    if set(dt["defines"]) != exp["defines"] or (exp["defines"] and dt["defines"].get("KB") != ["0.35", "1250"]) or \
+            (exp["defines"] and dt["defines"].get("M") != (["42"] if cfg.get("mval") else True)):
         bad("defines-read", f"{dt['defines']} expected {sorted(exp['defines'])}")
     bt = dt["types"].get("bonds", {})
     want_bt = {"T1 T1": [(["1", "0.33", "500"], None)], "T1 T2": [(["1", "0.30", "9000"], {"tag": "STIFF", "condition": "ifdef"})],
@@ -353,6 +359,6 @@ def run_case(cfg):
             stats["errors_expected"] += int(exp["error"])
             if len(viols) < 12:
                 viols += v
-            keys.append(json.dumps([cfg["ff"], cfg["define"], cfg["amode"], cfg["err"], cfg["errpos"], cfg.get("dmode"), lists[li], noise, mg]))
+            keys.append(json.dumps([cfg["ff"], cfg["define"], cfg["amode"], cfg["err"], cfg["errpos"], cfg.get("dmode"), bool(cfg.get("mval")), lists[li], noise, mg]))
     return dict(evals=evals, keys=keys, violations=viols, stats=stats,
                 sample={k: cfg[k] for k in ("ff", "define", "amode", "err", "errpos", "dmode")})
